@@ -230,14 +230,14 @@ example : ∃ π s', openOneT TEx.ro (TEx.tp true) (.uni 5) (commitC (toyPP true
   | ok r =>
     obtain ⟨π, s'⟩ := r
     simp only [h, decide_eq_true_eq] at hok
-    exact ⟨π, s', rfl, lincode_open_check_lockstep_one _ _ _ _ toyE 4 (toy_encodes true _) _ _ _ h, hok⟩
+    exact ⟨π, s', rfl, lincode_open_check_lockstep_one _ _ _ _ toyE 4 (toy_encodes true _ (by decide)) _ _ _ h, hok⟩
 /-- … and without it: 9 events -/
 example : (match openOneT TEx.ro (TEx.tp false) (.uni 5) (commitC (toyPP false) [1, 2, 3] toyE 4)
       (commitSt (toyPP false) [1, 2, 3] toyE 4) [] with
     | .ok (π, s') => decide (checkOneT TEx.ro (TEx.tp false) (.uni 5) (commitC (toyPP false) [1, 2, 3] toyE 4)
         (evalPoly [1, 2, 3] 5) π [] = .ok (true, s') ∧ s'.length = 9)
     | .error _ => false) = true := by decide
-example : Encodes (toyPP true) [1, 2, 3] toyE 4 := toy_encodes true _
+example : Encodes (toyPP true) [1, 2, 3] toyE 4 := toy_encodes true _ (by decide)
 
 /-- a three-operation history (`open`, `batch_open` over two point labels, `open_combinations`) on
 one sponge: six openings, 66 events … -/
